@@ -101,6 +101,7 @@ type ClusterExec struct {
 	Holder []int // key-level holder of every key at execution time
 	Seg    int
 	Field  string // second argument of the command as received (hash field of an HSET)
+	Value  string // third argument (value of that field)
 }
 
 type Cluster struct {
@@ -507,11 +508,14 @@ func (d *Cluster) recordExecLocked(node int, id int, keys []string, txn int, ask
 		// transferred would create the key in two places; holder stays the
 		// owner then and the monitor reports it.
 	}
-	f := ""
+	f, v := "", ""
 	if len(field) > 0 {
 		f = field[0]
 	}
-	d.execs = append(d.execs, ClusterExec{Node: node, ID: id, Keys: keys, Txn: txn, Asking: asking, Holder: h, Seg: d.seg, Field: f})
+	if len(field) > 1 {
+		v = field[1]
+	}
+	d.execs = append(d.execs, ClusterExec{Node: node, ID: id, Keys: keys, Txn: txn, Asking: asking, Holder: h, Seg: d.seg, Field: f, Value: v})
 }
 
 func clB2i(b bool) int {
@@ -718,11 +722,14 @@ func (d *Cluster) handle(node int, st *clConnState, args []string) string {
 		d.seen[id] = true
 		d.arrivals[id]++
 		if out == "x" {
-			fld := ""
+			fld, val := "", ""
 			if len(args) > 2 {
 				fld = args[2]
 			}
-			d.recordExecLocked(node, id, keys, -1, asking, fld)
+			if len(args) > 3 {
+				val = args[3]
+			}
+			d.recordExecLocked(node, id, keys, -1, asking, fld, val)
 			if flt == "ac" {
 				return ""
 			}
